@@ -343,6 +343,13 @@ pub fn judge_curve(c: &dyn CurveLike, ext: f64, tol: f64, case: &dyn Fn() -> Val
             l.check("direction rule", if hit.is_some() { "vertex" } else { "edge" }, ok, case, || {
                 format!("l={:e}: direction {:?} allowed {:?}", x, s.dir, allowed)
             });
+            if !is_2d && s.index + 1 < n && norm(&sub(&v[s.index + 1], &v[s.index])) > 0.0 {
+                // in 3D there is no vertex rule: the direction is that of the edge the station names
+                let ed = unit(&sub(&v[s.index + 1], &v[s.index]));
+                l.check("3D: the direction is parallel to the edge named by the station's index", "", dist(&ed, &s.dir) <= 1e-9, case, || {
+                    format!("l={:e}: index {} fraction {} direction {:?}, edge direction {:?}", x, s.index, s.fraction, s.dir, ed)
+                });
+            }
             if let Some(nm) = s.normal {
                 let exp = [s.dir[1], -s.dir[0], 0.0];
                 l.check("normal is direction rotated -90deg", "", dist(&nm, &exp) <= 1e-12, case, || {
